@@ -568,7 +568,7 @@ def srv_attr(comp, ev, rec):
         "sst:last": {"C04", "C05"},
         "resp:elec": {"C05"}, "sst:cur": {"C05", "C04"}, "sst:master": {"C05", "C04"}, "elecNotMax": {"C05"},
         "ribCallUnexpected": {"C04"}, "ribCallInsteadOfError": {"C09", "C04"}, "strayrib": {"C04"}, "ribCallMissing": {"C04", "C06"},
-        "opResp": {"C06"}, "extraResp": {"C06"}, "opsUnanswered": {"C06"}, "opOrder": {"C06"}, "foreignResult": {"C06"},
+        "opResp": {"C06"}, "ackedNotInstalled": {"C01", "C06"}, "extraResp": {"C06"}, "opsUnanswered": {"C06"}, "opOrder": {"C06"}, "foreignResult": {"C06"},
         "respAfterRibError": {"C06", "C12"}, "respInsteadOfError": {"C09", "C04"},
         "end": {"C09"}, "resp": {"C09"}, "sst:sess": {"C09"}, "msgUnexpected": {"C09"}, "openUnexpected": {"C09"},
         "openEnd": {"C09"}, "msgendUnexpected": {"C09"},
@@ -1545,6 +1545,14 @@ class LinFamily:
     def replay(self, ctx, path):
         raise Infra("concurrent histories are re-recorded by re-running the check")
 
+
+# C01 at the server: what is acknowledged on the stream = what the RIB installed (cascades across election terms included)
+_c01_srv = ServerFamily("C01",
+    mc={"quick": [dict(MaxMsgs=6, MaxOpen=2, HiVals=(0,), LoVals=(1, 2), OpShapes="chain", StampModes=("last",), AckModes=("RIB",))],
+        "thorough": [dict(MaxMsgs=7, MaxOpen=2, HiVals=(0,), LoVals=(1, 2), OpShapes="chain", StampModes=("last",), AckModes=("RIB", "RIB_FIB"))]},
+    sims={"quick": [(_S_SIM_OPS, 150, 400)], "thorough": [(_S_SIM_OPS, 3000, 400)]},
+    exh={"quick": [], "thorough": []}, random_cfg=_rnd(["ops"], 60, 600))
+REGISTRY["C01"] = CompositeFamily("C01", [REGISTRY["C01"], _c01_srv])
 
 for _p in ("C01", "C08", "C07", "C03"):
     _old = REGISTRY[_p]
